@@ -86,3 +86,7 @@ func spec_ucb(c byte) byte {
 // SplitN with n > 0 returns between 1 and n substrings in a fresh slice.
 //@ ext strings.SplitN(s string, sep string, n int) (r []string)
 //@   ensures n > 0 ==> 1 <= len(r) && len(r) <= n && vcFresh(r)
+
+// Split with a non-empty separator returns at least one substring, in a fresh slice.
+//@ ext strings.Split(s string, sep string) (r []string)
+//@   ensures len(sep) > 0 ==> len(r) >= 1 && vcFresh(r)
